@@ -402,6 +402,38 @@ with exec (n : nat) (fn : bool) (s : stmt) (σ : state) {struct n} : res (outcom
         if fn then Err           (* an identifier evaluated as an expression: outside this model *)
         else OK (OState st, σ)
     | SNop => OK (ONorm, σ)
+    | SAdd o h e =>
+        (* Variable.Add: Header.Add(name, val.String()) - a header that exists keeps its first value *)
+        if valid_stmt_expr TStr e then
+          do (r, σ1) <- eval n' dflt_mode e σ;
+          do rv <- load σ1 r;
+          OK (ONorm, match hget (o, h) (hdrs σ1), render Os rv with
+                     | None, (_ :: _) as t => set_hdrs (hset (o, h) t (hdrs σ1)) σ1
+                     | _, _ => σ1
+                     end)
+        else Err
+    | SRestart allowed =>
+        if fn || allowed then OK (OState st_restart, σ) else Err
+    | SError allowed gs gr code arg =>
+        if negb fn && negb allowed then Err else
+        (* assign.Assign(ctx.ObjectStatus, code); assign.Assign(ctx.ObjectResponse, arg) *)
+        do σ1 <- match code with
+                 | None => OK σ
+                 | Some e => do (r, σ') <- eval n' dflt_mode e σ;
+                             match lookup gs (globals σ') with
+                             | Some l => assign_cell false l AEq r σ'
+                             | None => Crash
+                             end
+                 end;
+        do σ2 <- match arg with
+                 | None => OK σ1
+                 | Some e => do (r, σ') <- eval n' dflt_mode e σ1;
+                             match lookup gr (globals σ') with
+                             | Some l => assign_cell false l AEq r σ'
+                             | None => Crash
+                             end
+                 end;
+        OK (OState st_error, σ2)
     | SSwitch c cases d =>
         do (lc, σ1) <- eval n' dflt_mode c σ;
         do vc <- load σ1 lc;
